@@ -4,6 +4,12 @@ import (
 	"bytes"
 	"fmt"
 	"strings"
+
+	"github.com/yuin/goldmark/ast"
+	"github.com/yuin/goldmark/extension"
+	east "github.com/yuin/goldmark/extension/ast"
+	"github.com/yuin/goldmark/parser"
+	"github.com/yuin/goldmark/text"
 )
 
 func init() { runners["C17"] = runC17; runners["C16"] = runC16 }
@@ -150,6 +156,13 @@ func runC17(c *Ctx) {
 			items = append(items, it)
 		}
 	}
+	for i, it := range items {
+		if it.stream == "table-soup" || it.stream == "header-mismatch" || i%5 == 0 {
+			if !bytes.HasPrefix(it.doc, []byte("> ")) && !bytes.HasPrefix(it.doc, []byte("- ")) {
+				tableTransformCase(c, it.doc)
+			}
+		}
+	}
 	lawSweep(c, cfgs, items, "table-shape", func(d []byte) bool { return true }, func(m mdT, d []byte) (string, bool) {
 		out, e, p := convertSafe(m.md, d)
 		if e != "" || p != "" {
@@ -178,4 +191,101 @@ func runC17(c *Ctx) {
 		}
 		return "", len(shapes) > 0 || bytes.Contains(d, []byte("-|"))
 	})
+}
+
+// ---- correspondence of the table paragraph transformer (public API) ----
+
+// line segments as the paragraph parser would record them: each line from its first non-space
+// byte to the end of the line (newline included)
+func paragraphLines(src []byte) []text.Segment {
+	var out []text.Segment
+	start := 0
+	for start < len(src) {
+		end := start
+		for end < len(src) && src[end] != '\n' {
+			end++
+		}
+		if end < len(src) {
+			end++
+		}
+		a := start
+		for a < end && (src[a] == ' ' || src[a] == '\t') {
+			a++
+		}
+		if a < end && src[a] != '\n' {
+			out = append(out, text.NewSegment(a, end))
+		}
+		start = end
+	}
+	return out
+}
+
+func cellStr(c ast.Node) string {
+	tc := c.(*east.TableCell)
+	s := "-"
+	if tc.Lines().Len() > 0 {
+		l := tc.Lines().At(0)
+		s = fmt.Sprintf("%d:%d", l.Start, l.Stop)
+	}
+	return fmt.Sprintf("%s/%d", s, int(tc.Alignment))
+}
+
+func tableTransformCase(c *Ctx, src []byte) {
+	lines := paragraphLines(src)
+	if len(lines) == 0 {
+		return
+	}
+	doc := ast.NewDocument()
+	para := ast.NewParagraph()
+	segs := text.NewSegments()
+	segs.AppendAll(append([]text.Segment(nil), lines...))
+	para.SetLines(segs)
+	doc.AppendChild(doc, para)
+	res := ""
+	func() {
+		defer func() {
+			if r := recover(); r != nil {
+				res = "PANIC"
+			}
+		}()
+		extension.NewTableParagraphTransformer().Transform(para, text.NewReader(src), parser.NewContext())
+	}()
+	if res == "" {
+		var tbl *east.Table
+		kept := 0
+		for n := doc.FirstChild(); n != nil; n = n.NextSibling() {
+			if t, ok := n.(*east.Table); ok {
+				tbl = t
+			} else if p, ok := n.(*ast.Paragraph); ok {
+				kept = p.Lines().Len()
+			}
+		}
+		if tbl == nil {
+			res = "none"
+		} else {
+			var al strings.Builder
+			for _, a := range tbl.Alignments {
+				al.WriteString(itoa(int(a)))
+			}
+			var header []string
+			var rows []string
+			for r := tbl.FirstChild(); r != nil; r = r.NextSibling() {
+				var cs []string
+				for cc := r.FirstChild(); cc != nil; cc = cc.NextSibling() {
+					cs = append(cs, cellStr(cc))
+				}
+				if _, ok := r.(*east.TableHeader); ok {
+					header = cs
+				} else {
+					rows = append(rows, strings.Join(cs, ","))
+				}
+			}
+			res = fmt.Sprintf("%d|%s|%s|%s", kept, al.String(), strings.Join(header, ","), strings.Join(rows, ";"))
+		}
+	}
+	var ls []string
+	for _, l := range lines {
+		ls = append(ls, fmt.Sprintf("%d,%d,%d", l.Start, l.Stop, l.Padding))
+	}
+	c.Case("TableTransform", []string{hx(src), strings.Join(ls, ";")}, res)
 }
